@@ -443,6 +443,8 @@ func rjPool() []hPrem {
 		hPrem{kind: "eq", l: hf("fn:plus", X, hc(1)), r: hf("fn:plus", Y, hc(0))},
 		hPrem{kind: "atom", pred: ":list:member", args: []hTerm{Y, hf("fn:list", hc(1), hc(3), X)}},
 		hPrem{kind: "atom", pred: ":list:member", args: []hTerm{X, hf("fn:list", hc(2), hc(3), hc(2))}},
+		hPrem{kind: "atom", pred: "b", args: []hTerm{hf("fn:plus", X, hc(1))}},
+		hPrem{kind: "atom", pred: "e", args: []hTerm{hf("fn:plus", Y, hc(0)), X}},
 	)
 	return p
 }
